@@ -533,13 +533,13 @@ def gen_case(kind, r):
         lo = r.choice([0.0, r.uniform(-10, 10)])
         w = r.choice([1.0, r.loguniform(1e-1, 1e2)])
         eps = r.loguniform(0.05, 5.0)
-        sens = w * r.choice([1.0, r.uniform(0.05, 1.0), r.uniform(0.3, 1.0)])
+        sens = w * r.choice([1.0, r.uniform(0.05, 1.0), r.uniform(0.3, 1.0), r.uniform(1.0, 3.0)])   # HEAD caps at the diameter
         p = {"eps": eps, "delta": r.choice([0.0, 0.0, r.loguniform(1e-6, 0.2)]), "sens": sens, "lo": lo, "hi": lo + w}
         xs = [lo + w * r.u01(), lo + w * r.choice([0.0, 1.0, r.uniform(-0.5, 1.5)]), lo + w * r.u01()]
-        script["u"] = [gen_u(r) for _ in range(4 * 127)]
+        script["u"] = [gen_u(r) for _ in range(4 * (127 if r.chance(0.1) else 31))]
     elif kind == "bnoise":
         p = {"eps": r.loguniform(0.05, 5.0), "delta": r.choice([r.loguniform(1e-6, 0.1), r.uniform(0.1, 0.49)]), "sens": sens}
-        script["u"] = [gen_u(r) for _ in range(4 * 127)]
+        script["u"] = [gen_u(r) for _ in range(4 * (127 if r.chance(0.1) else 31))]
     elif kind == "gauss":
         p = {"eps": r.choice([1.0, r.loguniform(1e-3, 1.0)]), "delta": r.choice([r.loguniform(1e-9, 1e-2), r.uniform(0.01, 0.9)]),
              "sens": sens}
@@ -1028,6 +1028,107 @@ def snap_boundary(m, p, x, sc):
         return False
 
 
+# ------------------------------------------------------------------------------------------------ Bingham acceptance
+
+class BinghamRS(np.random.RandomState):
+    """RandomState whose multivariate_normal / random are scripted: one proposal, one acceptance uniform"""
+
+    def __init__(self, rows, u):
+        super().__init__(0)
+        self.rows = np.array(rows, dtype=float)
+        self.u = u
+        self.n_mvn = 0
+        self.n_uniform = 0
+
+    def multivariate_normal(self, mean, cov, size=None, **k):
+        self.n_mvn += 1
+        if self.n_mvn > 1:
+            raise seams.ScriptExhausted("second proposal requested: the first one was rejected")
+        return self.rows.copy()
+
+    def random(self, size=None):
+        self.n_uniform += 1
+        return self.u
+
+
+def bingham_accept_threshold(eps, sens, A, rows):
+    """sup of the uniforms for which the real sampler accepts the scripted proposal = its acceptance probability"""
+    def accepted(u):
+        m = M.Bingham(epsilon=eps, sensitivity=sens, random_state=BinghamRS(rows, u))
+        try:
+            m.randomise(A)
+            return True
+        except seams.ScriptExhausted:
+            return False
+    if accepted(1.0):
+        return 1.0
+    if not accepted(0.0):
+        return 0.0
+    lo, hi = 0.0, 1.0
+    for _ in range(60):
+        mid = (lo + hi) / 2
+        if accepted(mid):
+            lo = mid
+        else:
+            hi = mid
+    return lo
+
+
+def bingham_reference(eps, sens, A, rows):
+    """u'A'u, u'Omega u, b for the scripted proposal (the quantities of Kent–Ganeiber–Mardia), computed here"""
+    dims = A.shape[0]
+    eig = np.linalg.eigvalsh(A)
+    At = eps * (eig.max() * np.eye(dims) - A) / 4 / sens
+    te = np.linalg.eigvalsh(At)
+    left, right, mid = 1, dims, (1 + dims) / 2
+    old = (right - left) * 2
+    while right - left < old:
+        old = right - left
+        mid = (right + left) / 2
+        f = np.array([1 / (mid + 2 * e) for e in te]).sum()
+        if f <= 1:
+            right = mid
+        if f >= 1:
+            left = mid
+    b = mid
+    omega = np.eye(dims) + 2 * At / b
+    v = np.array(rows, dtype=float).sum(axis=0)
+    u = v / np.linalg.norm(v)
+    return float(u.dot(At).dot(u)), float(u.dot(omega).dot(u)), float(b)
+
+
+def gen_bingham_case(r):
+    dims = r.choice([2, 2, 3, 4])
+    Q = np.array([[r.normal() for _ in range(dims)] for _ in range(dims)])
+    A = (Q + Q.T) / 2 * r.loguniform(0.3, 3.0)
+    rows = [[r.normal() * 0.5 for _ in range(dims)] for _ in range(4)]
+    return {"eps": r.loguniform(0.2, 8.0), "sens": r.loguniform(0.5, 2.0), "A": A.tolist(), "rows": rows}
+
+
+def run_bingham(ctx):
+    """K for the acceptance test of Bingham.randomise: acceptance probability of a scripted proposal (measured by
+    bisection on the acceptance uniform) vs the model's coded ratio"""
+    r = ctx.fork("bingham-accept")
+    n = ctx.budget(40, 400)
+    cases = [gen_bingham_case(r) for _ in range(n)]
+    lines, meas = [], []
+    for c in cases:
+        A = np.array(c["A"])
+        uau, uou, b = bingham_reference(c["eps"], c["sens"], A, c["rows"])
+        meas.append((bingham_accept_threshold(c["eps"], c["sens"], A, c["rows"]), uau, uou, b))
+        lines.append(f"bingacc {F(uau)} {F(uou)} {A.shape[0]} {F(b)}")
+    outs = leanio.run_driver("Samplers", lines) if lines else []
+    for c, (thr, uau, uou, b), line in zip(cases, meas, outs):
+        w = line.split()
+        coded = b2f(int(w[2]))
+        ctx.case(("bingham-accept", round(uou, 6)))
+        if abs(min(coded, 1.0) - thr) <= 1e-9 * max(thr, 1e-300) + 1e-15:
+            ctx.trace_ok()
+        else:
+            ctx.disagree("sampler.bingham.accept", {"eps": c["eps"], "sens": c["sens"], "A": c["A"], "rows": c["rows"]},
+                         {"coded": coded, "kgm": b2f(int(w[3]))}, thr, "acceptance probability of the scripted proposal")
+
+
 # ------------------------------------------------------------------------------------------------ entry points
 
 def nontrivial_key(case, info):
@@ -1044,7 +1145,7 @@ def nontrivial_key(case, info):
 
 def check(ctx):
     r = ctx.fork("cases")
-    n_total = ctx.budget(3000, 40000)
+    n_total = ctx.budget(3000, 24000)
     per_kind = max(1, n_total // len(KINDS))
     cases = []
     for kind in KINDS:
@@ -1085,6 +1186,7 @@ def check(ctx):
         if compare_case(ctx, case, info, o):
             ctx.trace_ok()
     ctx.count("driver_lines", len(all_lines))
+    run_bingham(ctx)
     run_stats(ctx)
 
 
@@ -1099,13 +1201,25 @@ def replay(ctx, data):
 
 
 def _witness_bingham(ctx):
+    """deterministic part: the acceptance probability of one scripted proposal vs the Kent–Ganeiber–Mardia ratio;
+    statistical part: fixed matrix, fixed seed, DKW threshold"""
+    A = np.array([[2.0, 0.5], [0.5, 1.0]])
+    rows = [[0.3, -0.2], [0.1, 0.4], [-0.5, 0.2], [0.2, 0.3]]
+    eps, sens = 2.0, 1.0
+    uau, uou, b = bingham_reference(eps, sens, A, rows)
+    norm_const = math.exp(-(2 - b) / 2) * (2 / b) ** (2 / 2)
+    kgm = math.exp(-uau) / norm_const * uou ** (2 / 2)
+    got = bingham_accept_threshold(eps, sens, A, rows)
+    det_fails = not abs(got - min(1.0, kgm)) <= 1e-9 * kgm
+    inverted = abs(got - kgm / uou ** 2) <= 1e-9 * kgm
     p = {"eps": 1.8235, "sens": 1.0, "l1": 1.8564390614447663, "l2": 0.4303131159093847, "theta": 2.4384978145833873}
-    res = stat_test("bingham", p, 7, 100000)     # 20000 draws
-    rec = res[0]
-    fails = not rec[1] <= rec[2]
-    return fails, (f"Bingham(epsilon=1.8235).randomise in 2-D: doubled angle is at sup-distance {rec[1]:.4f} from the Bingham "
-                   f"(von Mises) law, DKW threshold {rec[2]:.4f} at n={rec[3]}; the sample follows exp(-u'Au)(u'Omega u)^(-q): "
-                   f"the acceptance ratio divides by the ACG factor instead of multiplying (bingham.py:147-149)")
+    rec = stat_test("bingham", p, 7, 100000)[0]     # 20000 draws
+    stat_fails = not rec[1] <= rec[2]
+    return (det_fails or stat_fails), (
+        f"Bingham(epsilon=2).randomise([[2,.5],[.5,1]]) accepts the proposal u=(0.1,0.7)/|.| with probability {got:.6f}; the "
+        f"Kent-Ganeiber-Mardia ratio f_Bing/(M f_ACG) is {kgm:.6f}" + (" (= coded value x (u'Omega u)^q: ratio inverted, bingham.py:147-149)" if inverted else "") +
+        f"; in 2-D the doubled angle of 20000 draws at epsilon=1.8235 is at sup-distance {rec[1]:.4f} from the Bingham (von Mises) "
+        f"law, DKW threshold {rec[2]:.4f}")
 
 
 WITNESSES = {"C03:bingham:law:acceptance-inverted": _witness_bingham}
